@@ -75,6 +75,11 @@ def handle1 (op : String) (args : List Sexp) : Option String := do
         | _ => Option.none
       match ← perdictable fModel ps on defs ins exp today with
       | .ok (r, log) =>
+          -- a parameter of `f` that is neither an input nor a key column nor `data` / `expiry`: the model's `rowArgs` reads `None`
+          -- for it, python raises TypeError (missing argument) as soon as `f` is called
+          if !log.isEmpty && ps.any (fun q => !((ins.map (·.1)).contains q || on.contains q || q == "data" || q == "expiry")) then
+            pure "err TypeError"
+          else
           pure ("ok " ++ (Val.tuple [resultVal r, .list (log.map fun a => .tuple (a.map .cell))]).render)
       | .error e => pure ("err " ++ e.render)
   | "callr", [ps, on, rens, ifn, defs, ins, exp, today] =>
